@@ -579,7 +579,7 @@ def rule_close_payload(ctx, rule_id="C02.2-close-payload"):
                     return [("u16", a_[0], a_[1])]
                 raise AnalysisError(f"call {f_} on the CLOSE path of processControlFrame is not modelled")
             env = {"self": Sym("protocol"), "self.control_frame_data": [Buf(0, ll)] if ll else [], "self.current_frame.opcode": 8}
-            t = Tiny(env, default_call=default)
+            t = Tiny(env, default_call=default, inline_self=inl)
             r = t.run(body)
             cell = f"close payload of {ll} octet(s)"
             want_code = ("u16", "!H", Buf(0, 2)) if ll >= 2 else None
@@ -855,6 +855,8 @@ def run(ctx):
     rule_control_dispatch(ctx)
     rule_delivery_gate(ctx)
     rule_progress(ctx)
+    from .c01 import rule_asyncio_queue
+    rule_asyncio_queue(ctx, "C02.9-asyncio-reads-reach-the-decoder-in-order")
 
 
 def rule_progress(ctx, rule_id="C02.7-complete-frames-need-no-further-octets"):
